@@ -73,7 +73,8 @@ def run_case(ctx, rng, index, casedir):
     viol = []
     g = rgfa.gen_rgfa(rng, size=rng.choice(["small", "medium", "medium"]), min_seg=1)
     gpath = g.write(os.path.join(casedir, vary_name(rng, "g.gfa") + (".gz" if rng.random() < 0.2 else "")), rng=rng, shuffle=rng.random() < 0.5,
-                    with_seq=rng.random() >= 0.2)
+                    with_seq=rng.random() >= 0.2,
+                    bo_no=({n: (rng.randint(0, 40), rng.randint(0, 6)) for n in g.nodes} if rng.random() < 0.15 else None))
     M.CTX["coords"] = rgaf.Coords(g)
     hi = 400 if ctx.tier == "quick" else rng.choice([400, 1500, 5000])
     nrec = rng.choice([1, 2, 3, rng.randint(4, 40), rng.randint(40, hi)])
